@@ -84,7 +84,7 @@ def plan(tier, seed):
 def minimums(tier):
     return {"dump.calls_checked": 3000, "dump.partitions_checked": 2500, "file.format_checks": 1500, "script.runs": 10,
             "workload.header_at_0": 30, "workload.no_headers": 100, "workload.six_headers": 50,
-            "workload.repeated_name": 100}
+            "workload.repeated_name": 100, "file.raw_text_column": 300}
 
 
 def drive(ctx, dump, rng, hdr, sf, table, strings, root, tag, k):
@@ -113,12 +113,15 @@ def drive(ctx, dump, rng, hdr, sf, table, strings, root, tag, k):
     if 0 < len(d) < 60000:
         for fmt in ("bmc", "old"):
             render = im.render_bmc if fmt == "bmc" else im.render_old
-            lines = render(d, lower=rng.random() < 0.3, strip=rng.random() < 0.3)
+            raw = rng.random() < 0.3
+            lines = render(d, lower=rng.random() < 0.3, strip=rng.random() < 0.3, raw=raw)
+            if raw and any(b in im.RAW_TEXT for b in d):
+                ctx.count("file.raw_text_column")
             if rng.random() < 0.4:
                 banner = ["# IO drawer dump", "", "Collected by: tool x", "-----", "  ", "note: see below"]
                 lines = [rng.choice(banner) for _ in range(rng.choice([1, 2, 5, 16, 17, 40]))] + lines + ["", "-- end --"]
             path = os.path.join(root, "dump_%s.txt" % fmt)
-            with open(path, "w") as f:
+            with open(path, "w", encoding="utf-8") as f:
                 f.write("\n".join(lines) + "\n")
             ctx.count("file.format_checks")
             try:
@@ -142,7 +145,7 @@ def run(spec, ctx):
         for i in range(spec["n"]):
             table, strings = iogen.gen_table(rng), iogen.gen_strings(rng)
             hdr, sf = os.path.join(root, "t%d.h" % (i % 2)), os.path.join(root, "s%d" % (i % 2))   # reused paths, rewritten files
-            im.write_pte_table(hdr, table, rng, style=rng.randrange(4))
+            im.write_pte_table(hdr, table, rng, style=rng.randrange(4) | (16 if rng.random() < 0.2 else 0))
             im.write_string_file(sf, strings, rng)
             for k in range(12):
                 drive(ctx, dump, rng, hdr, sf, iogen.model_table(table), iogen.model_strings(strings), root, "syn%d" % i, i * 12 + k)
